@@ -430,6 +430,23 @@ def _receiver_is_metadata(st, i, body_open):
                         return True
                 return False
             k -= 1
+        # closure parameter of a combinator applied to a metadata call:  X.symlink_metadata().map(|m| m.is_file())
+        k = j - 1
+        while k > body_open + 2:
+            if st[k][1] == '|' and st[k - 1][1] == name and st[k - 2][1] == '|':
+                q = k - 3
+                d = 0
+                while q > body_open:
+                    if st[q][1] in (')', ']', '}'):
+                        d += 1
+                    elif st[q][1] in ('(', '[', '{'):
+                        if d == 0:
+                            break
+                        d -= 1
+                    q -= 1
+                return (q - 5 > body_open and st[q][1] == '(' and st[q - 1][1] in ('map', 'map_or', 'is_ok_and', 'is_some_and', 'and_then', 'map_or_else')
+                        and st[q - 2][1] == '.' and st[q - 3][1] == ')' and st[q - 4][1] == '(' and st[q - 5][1] in META_CALLS)
+            k -= 1
     return False
 
 
